@@ -109,6 +109,11 @@ pub struct PreState {
     /// correct tool still succeeds.
     #[serde(default)]
     pub neighbour: u8,
+    /// the tool is started from a working directory that has just been removed (getcwd fails
+    /// with ENOENT); applied only when the output path is absolute. A tool that is given
+    /// absolute paths cannot depend on where it was started.
+    #[serde(default)]
+    pub cwd_gone: bool,
 }
 
 #[derive(Clone, Debug, PartialEq, Eq, Serialize, Deserialize)]
@@ -270,6 +275,29 @@ fn gen_invocation(r: &mut Rng, names: Option<(String, String)>) -> Invocation {
         short_o: r.chance(1, 4),
         uid: if r.chance(1, 4) { r.range(1, 2) as u8 } else { 0 },
     };
+    // subject strings that look like names: a host name, an IP literal, or the text of one of
+    // the given names. They stay subject strings; the names in the certificate are the --san ones.
+    if r.chance(1, 5) {
+        let s = match r.below(4) {
+            0 => format!("{}.{}", word(r, &NAMECH[..26], 1, 8), *r.pick(&["example.com", "example", "test.internal", "co.uk"])),
+            1 => match ip(r) {
+                SanArg::Ip(t, _) => t,
+                SanArg::Dns(t) => t,
+            },
+            2 if !inv.sans.is_empty() => match r.pick(&inv.sans).clone() {
+                SanArg::Ip(t, _) => t,
+                SanArg::Dns(t) => t,
+            },
+            _ => host(r),
+        };
+        if !s.starts_with('-') && !s.starts_with('*') {
+            if r.chance(3, 4) {
+                inv.common_name = Some(s);
+            } else {
+                inv.org = Some(s);
+            }
+        }
+    }
     if let Some(c) = &inv.country {
         if c.starts_with('-') || c.trim().is_empty() {
             inv.country = Some("ZZ".into());
@@ -466,6 +494,7 @@ impl Engine for CliSim {
             unprivileged: r.chance(1, 4),
             stdout: if r.chance(1, 5) { r.range(1, 3) as u8 } else { 0 },
             neighbour: if r.chance(1, 5) { r.range(1, 4) as u8 } else { 0 },
+            cwd_gone: r.chance(1, 8),
             clock: if r.chance(1, 4) {
                 *r.pick(&[
                     1835438400i64, // 2028-02-29 12:00:00 (leap day)
@@ -620,6 +649,7 @@ impl Engine for CliSim {
             || t.pre.unprivileged
             || t.pre.stdout != 0
             || t.pre.neighbour != 0
+            || t.pre.cwd_gone
         {
             let mut c = t.clone();
             c.pre = PreState {
@@ -638,6 +668,7 @@ impl Engine for CliSim {
                 unprivileged: false,
                 stdout: 0,
                 neighbour: 0,
+                cwd_gone: false,
             };
             v.push(c);
             let mut c = t.clone();
@@ -845,6 +876,23 @@ fn scenario(t: &CliTrace, fault: Option<&(usize, Fault)>, o: &mut Outcome, label
             c
         };
         cmd.args(inv.os_args(&out_arg)).current_dir(&root).env_clear();
+        if t.pre.cwd_gone && (t.pre.absolute || t.pre.other_fs) {
+            let gone = root.join(format!("cwd-{i}"));
+            std::fs::create_dir_all(&gone).expect("cwd to remove");
+            if drop_priv {
+                make_world_writable(&root);
+            }
+            cmd.current_dir(&gone);
+            let g = gone.clone();
+            // runs in the child after chdir and before exec: the directory the tool starts in is gone
+            unsafe {
+                std::os::unix::process::CommandExt::pre_exec(&mut cmd, move || {
+                    let _ = std::fs::remove_dir(&g);
+                    Ok(())
+                });
+            }
+            o.count("invocations_started_in_a_removed_directory", 1);
+        }
         cmd.env("PATH", "/usr/bin:/bin");
         match t.pre.tmpdir {
             1 => {
